@@ -637,7 +637,7 @@ def _r_drv(ck, world, table, strict_order: bool = False) -> None:
     for f2 in alg.own.values():
         if isinstance(f2, ast.FunctionDef):
             for n in ast.walk(f2):
-                if isinstance(n, ast.Call) and isinstance(n.func, ast.Attribute) and n.func.attr in ('check', 'apply') and len(n.args) == 2 and isinstance(n.func.value, ast.Name):
+                if isinstance(n, ast.Call) and isinstance(n.func, ast.Attribute) and (n.func.attr == 'apply' or n.func.attr.startswith('check')) and len(n.args) == 2 and isinstance(n.func.value, ast.Name):
                     rule_calls.append((n, f2))
     ck.floor('R-RAISE', len(rule_calls), 2, 'check/apply calls of registered rules in the driver')
     ok_h = bool(rule_calls) and all(covered(n, f2) for n, f2 in rule_calls)
